@@ -101,6 +101,7 @@ class Facts:
         self.fns = d["fns"]
         raws = self._undo_renames(d)
         raws = self._inline_new_helpers(raws)
+        raws = self._split_new_structs(raws)
         self.bodies = [Body(self, b) for b in raws]
         self._flat = {}
         self.optimized = None
@@ -326,6 +327,31 @@ class Facts:
                 res2.append(nb if n_ else b)
             res = res2
         return res
+
+    def _split_new_structs(self, raws):
+        """Locals of plain-data struct types that the reference tree does not have (engine/known_items.json) are
+        replaced by one local per field (flatten.split_struct_locals): a refactoring that gathers loop variables in a
+        struct leaves the rules the variables they are written for."""
+        import flatten
+        self.split_structs = {}
+        try:
+            known = json.load(open(os.path.join(os.path.dirname(os.path.abspath(__file__)), "known_items.json"))).get("adts", {})
+        except Exception:
+            return raws
+        if self.raw.get("crate") != "stretto":
+            return raws
+        new_types = {p_ for p_, a_ in self.adts.items() if p_ not in known and str(a_.get("span", {}).get("f", "")).startswith("src/") and "::test" not in p_}
+        if not new_types:
+            return raws
+        out = []
+        for b in raws:
+            if any(l_["ty"] in new_types for l_ in b["locals"]):
+                nb, n_ = flatten.split_struct_locals(b, self.adts, lambda ty: ty in new_types)
+                if n_:
+                    self.split_structs[b["path"]] = n_
+                    b = nb
+            out.append(b)
+        return out
 
     def flat(self, body):
         """The body with eager std combinators taking closure literals desugared to explicit control
